@@ -12,14 +12,16 @@ ENTRY = dict(
                 "replay: generated block-structured programs run on the real engine, paced by whole-process quiescence, every "
                 "segment of requests / completions / error traces and the final variables compared with the model at the "
                 "extracted configuration, and with the token game (the property)."),
-    level_note=("partial: the block-level conformance theorem (engine run = denotation of the block program) is not proved; "
-                "conformance is stated as equality of the code configuration's run with the token-game run and holds by "
-                "construction only when no deviation switch is on; the switches still on (inclusive cohort, sub-process "
+    level_note=("refinement proved (Props/C01Conformance): for every code configuration, program, data and answer sequence, a "
+                "run that logs no deviation cause IS a run of the token game under an admissible inclusive-join policy "
+                "(every join decision inside the interval the property allows), and equals the run of Cfg.ideal when the "
+                "cohort switch is off; the naive statement 'equals Cfg.ideal' is refuted by a kernel-checked witness. The "
+                "block-level denotational theorem is not attempted. The switches still on (inclusive cohort, sub-process "
                 "re-entry) are known findings with their own signatures. Atomicity abstraction: each node handles one message "
                 "atomically and tokens run to quiescence between driver actions; two scheduling variants of the code "
                 "configuration are accepted. Goroutine schedules are sampled by the runs, not quantified by a theorem."),
     technique="Lean 4 proof (kernel theorems on the engine model) + lock-step model/implementation replay",
-    lean_modules=["Bpmn.Props.C01", "Bpmn.Props.EngineCurrent"],
+    lean_modules=["Bpmn.Props.C01", "Bpmn.Props.C01Conformance", "Bpmn.Props.EngineCurrent"],
     families=["c01"],
     facts_from=["Engine"],
     rule=("seeded block-structured programs (tasks of all nine kinds, seq, exclusive / parallel / inclusive blocks with "
